@@ -10,8 +10,8 @@
 (*     call, acknowledged objects the call does not touch are intact,      *)
 (*   - the first load / Control reports corruption (indexed identifiers    *)
 (*     differ from file identifiers) or index and files agree,             *)
-(*   - after Repair (index every unindexed file with its actual values,    *)
-(*     drop entries without file, keep the other entries) they agree.      *)
+(*   - after Repair (drop entries without file, rebuild every other entry  *)
+(*     from its file) they agree.                                          *)
 (*                                                                         *)
 (* The step sequences are those of the code as it is now: an object or     *)
 (* the schema is written to a temporary file (ignored by the directory     *)
@@ -21,8 +21,8 @@
 (* Deviations:  InPlaceWrite - the pinned tree truncated and rewrote files *)
 (* in place (fixed, F12);  StaleIndex - the known finding K01: between the *)
 (* rename of an UPDATED object and the commit of the schema the index      *)
-(* holds the old indexed values of that object, Control cannot see it and  *)
-(* Repair keeps the entry.  With Dev = {} TLC must find exactly that       *)
+(* holds the old indexed values of that object and Control cannot see it   *)
+(* (Repair, once called, heals it).  With Dev = {} TLC must find that      *)
 (* state; with Dev = {"StaleIndex"} CrashSafe \/ StaleShape is an          *)
 (* invariant, i.e. every violating crash point of the bounded design has   *)
 (* the recorded shape and no other.                                        *)
@@ -112,7 +112,7 @@ Untouched == \A u \in DOMAIN Sm : (u \in DOMAIN Sp /\ Sm[u] = Sp[u]) => (u \in D
 NoLoss    == \A u \in DOMAIN Sm \cap DOMAIN Sp : u \in DOMAIN files
 Detected  == DOMAIN dix # DOMAIN files          \* Control / first load: identifiers only
 Agree(ix) == DOMAIN ix = DOMAIN files /\ \A u \in DOMAIN files : ix[u] = Ix(files[u])
-Repaired  == [u \in DOMAIN files |-> IF u \in DOMAIN dix THEN dix[u] ELSE Ix(files[u])]
+Repaired  == [u \in DOMAIN files |-> Ix(files[u])]      \* Repair rebuilds every entry from its file (F25)
 
 CrashSafe == /\ Readable /\ OldOrNew /\ Untouched /\ NoLoss
              /\ Detected \/ Agree(dix)
@@ -122,7 +122,7 @@ CrashSafe == /\ Readable /\ OldOrNew /\ Untouched /\ NoLoss
 \* disagreement between index and files is the OLD indexed value of an object the interrupted call rewrote
 StaleShape ==
   /\ "StaleIndex" \in Dev
-  /\ Readable /\ OldOrNew /\ Untouched /\ NoLoss
+  /\ Readable /\ OldOrNew /\ Untouched /\ NoLoss /\ Agree(Repaired)
   /\ \A u \in DOMAIN files \cap DOMAIN dix :
         dix[u] # Ix(files[u]) => (u \in DOMAIN Sm /\ u \in DOMAIN Sp /\ files[u] = Sp[u] /\ dix[u] = Ix(Sm[u]) /\ Sm[u] # Sp[u])
 
